@@ -231,3 +231,15 @@ fn vq_c09_pn_map_insert() {
     kani::cover!(!m.empty && map.values.len() == CAP && m.count() == 3, "reach:fourth_entry_no_growth");
     kani::cover!(true, "reach:end");
 }
+
+// ---------------------------------------------------------------------------------------------------------------------
+// NOTE for harnesses in other crates that hold a Map with a niche-encoded value type (recovery::Manager: SentPackets =
+// Map<SentPacketInfo<_>>).  Measured with Kani 0.68 / CBMC 6.11: iterating a map of two entries built by CONCRETE
+// inserts costs 17 k symex steps for Map<u16> (explicit Option tag) but 715 k steps for Map<SentPacketInfo<()>>, where
+// every loop is unrolled to the unwind bound: the discriminant of Option<SentPacketInfo> lives in a niche of a field and
+// CBMC's symbolic execution does not constant-fold that read (a byte extract) out of the boxed ring, so "is this slot
+// occupied" is symbolic even for concrete contents, and so is every loop driven by Iter::next / RemoveIter::next.
+// Replacing those two functions by oracle-checked variants via #[kani::stub] was tried and is NOT possible with this
+// Kani: `<map::Iter<..> as core::iter::Iterator>::next` fails with "unable to find implementation of associated function
+// `std::iter::Iterator::next` for Iter<'a, V>" -- trait-impl methods of GENERIC types cannot be named as stub targets
+// (reproduced on a 10-line stand-alone file; non-generic types such as Timestamp work).
